@@ -17,21 +17,21 @@ FF(n, d) == IF n \in 0..12 /\ d \in 0..12 THEN FFTable[n][d] ELSE FFrec(n, d)
 Fact(n) == FF(n, n)
 
 (* ------------------------------- vectors ------------------------------ *)
-VZero(n) == TLCEval([i \in 1..n |-> Zero])
-VAdd(x, y) == TLCEval([i \in 1..Len(x) |-> RAdd(x[i], y[i])])
-VSub(x, y) == TLCEval([i \in 1..Len(x) |-> RSub(x[i], y[i])])
-VScale(a, x) == TLCEval([i \in 1..Len(x) |-> RMul(a, x[i])])
-VUnit(n, j) == TLCEval([i \in 1..n |-> IF i = j THEN One ELSE Zero])
+VZero(n) == Force([i \in 1..n |-> Zero])
+VAdd(x, y) == Force([i \in 1..Len(x) |-> RAdd(x[i], y[i])])
+VSub(x, y) == Force([i \in 1..Len(x) |-> RSub(x[i], y[i])])
+VScale(a, x) == Force([i \in 1..Len(x) |-> RMul(a, x[i])])
+VUnit(n, j) == Force([i \in 1..n |-> IF i = j THEN One ELSE Zero])
 (* ------------------------------- matrices ----------------------------- *)
 NRows(A) == Len(A)
 NCols(A) == IF Len(A) = 0 THEN 0 ELSE Len(A[1])
-MZero(n, m) == TLCEval([i \in 1..n |-> [j \in 1..m |-> Zero]])
-Transpose(A) == TLCEval([j \in 1..NCols(A) |-> [i \in 1..NRows(A) |-> A[i][j]]])
-MatVec(A, x) == TLCEval([i \in 1..NRows(A) |-> RDot(A[i], x)])
-MatMul(A, B) == LET Bt == TLCEval(Transpose(B))
-                IN TLCEval([i \in 1..NRows(A) |-> [j \in 1..NCols(B) |-> RDot(A[i], Bt[j])]])
-Col(A, j) == TLCEval([i \in 1..NRows(A) |-> A[i][j]])
-ColMat(x) == TLCEval([i \in 1..Len(x) |-> <<x[i]>>])
+MZero(n, m) == Force([i \in 1..n |-> [j \in 1..m |-> Zero]])
+Transpose(A) == Force([j \in 1..NCols(A) |-> [i \in 1..NRows(A) |-> A[i][j]]])
+MatVec(A, x) == Force([i \in 1..NRows(A) |-> RDot(A[i], x)])
+MatMul(A, B) == LET Bt == Force(Transpose(B))
+                IN Force([i \in 1..NRows(A) |-> [j \in 1..NCols(B) |-> RDot(A[i], Bt[j])]])
+Col(A, j) == Force([i \in 1..NRows(A) |-> A[i][j]])
+ColMat(x) == Force([i \in 1..Len(x) |-> <<x[i]>>])
 (***************************************************************************)
 (* SolveDef(A, B): the X with A X = B, by Gauss-Jordan elimination with    *)
 (* first-non-zero pivoting (exact arithmetic needs no magnitude pivoting). *)
@@ -48,10 +48,10 @@ Elim(M, c, n) ==
     ELSE IF \A i \in c..n : M[i][c] = Zero THEN <<>>
     ELSE LET p == CHOOSE i \in c..n : M[i][c] # Zero /\ \A j \in c..(i-1) : M[j][c] = Zero
              w == Len(M[1])
-             Msw == TLCEval([i \in 1..n |-> IF i = c THEN M[p] ELSE IF i = p THEN M[c] ELSE M[i]])
+             Msw == Force([i \in 1..n |-> IF i = c THEN M[p] ELSE IF i = p THEN M[c] ELSE M[i]])
              piv == Msw[c][c]
-             prow == TLCEval([j \in 1..w |-> RDiv(Msw[c][j], piv)])
-             M2 == TLCEval([i \in 1..n |->
+             prow == Force([j \in 1..w |-> RDiv(Msw[c][j], piv)])
+             M2 == Force([i \in 1..n |->
                       IF i = c THEN prow
                       ELSE IF Msw[i][c] = Zero THEN Msw[i]
                       ELSE LET f == Msw[i][c]
@@ -62,8 +62,8 @@ Elim(M, c, n) ==
 SolveDef(A, B) ==
     LET n == NRows(A)
         m == NCols(B)
-        Aug == TLCEval([i \in 1..n |-> A[i] \o B[i]])
-        R == TLCEval(Elim(Aug, 1, n))
+        Aug == Force([i \in 1..n |-> A[i] \o B[i]])
+        R == Force(Elim(Aug, 1, n))
     IN IF R = <<>> THEN Undefined     \* singular: no solution is defined (TLC reports an evaluation error)
        ELSE [i \in 1..n |-> SubSeq(R[i], n + 1, n + m)]
 
@@ -72,17 +72,17 @@ RSolveFast(A, B) == SolveDef(A, B)
 
 Solve(A, B) == RSolveFast(A, B)
 SolveVec(A, b) == Col(Solve(A, ColMat(b)), 1)
-IsNonsingular(A) == TLCEval(Elim(TLCEval(A), 1, NRows(A))) # <<>>
+IsNonsingular(A) == Force(Elim(Force(A), 1, NRows(A))) # <<>>
 
 (* ------------------------------ polynomials --------------------------- *)
 PolyEval(c, x) == RHorner(c, x)
 \* d-th derivative as a polynomial (empty sequence = zero polynomial)
-PolyDeriv(c, d) == TLCEval([k \in 1..(IF Len(c) > d THEN Len(c) - d ELSE 0) |-> RMul(RInt(FF(k - 1 + d, d)), c[k + d])])
+PolyDeriv(c, d) == Force([k \in 1..(IF Len(c) > d THEN Len(c) - d ELSE 0) |-> RMul(RInt(FF(k - 1 + d, d)), c[k + d])])
 PolyEvalD(c, x, d) == PolyEval(PolyDeriv(c, d), x)
 PolyMul(a, b) ==
     IF Len(a) = 0 \/ Len(b) = 0 THEN <<>>
-    ELSE LET aa == TLCEval(a)  bb == TLCEval(b)
-         IN TLCEval([k \in 1..(Len(aa) + Len(bb) - 1) |->
+    ELSE LET aa == Force(a)  bb == Force(b)
+         IN Force([k \in 1..(Len(aa) + Len(bb) - 1) |->
             LET lo == IF k - Len(bb) + 1 > 1 THEN k - Len(bb) + 1 ELSE 1
                 hi == IF k < Len(aa) THEN k ELSE Len(aa)
             IN RSum([i \in 1..(hi - lo + 1) |-> RMul(aa[lo + i - 1], bb[k + 1 - (lo + i - 1)])])])
